@@ -9,6 +9,7 @@
   of strings / pointers / enums, `pprint.pformat` of lists, `str()` of every other value.
 -/
 import CstructModel.Hexdump
+import CstructModel.Gen.Colors
 
 namespace Cstruct.Dumpstruct
 open Cstruct Cstruct.Hexdump
@@ -46,14 +47,11 @@ def render (f : DField) : String :=
   | .text s => s
   | .list s => reindent f.name s
 
-/-- `colors`: (foreground, background) -/
-def colorTable : List (String × String) :=
-  [ ("\x1b[1;31m", "\x1b[1;41m\x1b[1;37m"), ("\x1b[1;32m", "\x1b[1;42m\x1b[1;37m"), ("\x1b[1;33m", "\x1b[1;43m\x1b[1;37m"),
-    ("\x1b[1;34m", "\x1b[1;44m\x1b[1;37m"), ("\x1b[1;35m", "\x1b[1;45m\x1b[1;37m"), ("\x1b[1;36m", "\x1b[1;46m\x1b[1;37m"),
-    ("\x1b[1;37m", "\x1b[1;47m\x1b[1;30m") ]
+/-- `colors`: (foreground, background) - regenerated from utils.py by the translator (`Gen/Colors.lean`) -/
+def colorTable : List (String × String) := Gen.dumpColors
 
 /-- `colors[ci % len(colors)]` -/
-def colorAt (ci : Nat) : String × String := colorTable.getD (ci % 7) ("", "")
+def colorAt (ci : Nat) : String × String := colorTable.getD (ci % colorTable.length) ("", "")
 
 /-- the listing line of one field -/
 def fieldLine (color : Bool) (ci : Nat) (f : DField) : List Seg :=
